@@ -401,9 +401,9 @@ def c07() -> List[V]:
           "domain = From(list(filter(lambda v: isinstance(v, symbolic_cls), domain.domain)))", rule="LAZY-TAINT"),
         V("and-sorts-left", S, "AND._evaluate__", "            left_values = self.left._evaluate__(sources, yield_when_false=yield_when_false)",
           "            left_values = sorted(self.left._evaluate__(sources, yield_when_false=yield_when_false), key=len)", rule="LAZY-TAINT"),
-        V("domain-wrapped-eagerly", "hashed_data", "HashedIterable.set_iterable",
-          "self.iterable = (HashedValue(v) if not isinstance(v, HashedValue) else v for v in iterable)",
-          "self.iterable = [HashedValue(v) if not isinstance(v, HashedValue) else v for v in iterable]", rule="MEMO-ON-PULL"),
+        V("domain-wrapped-eagerly", "hashed_data", "HashedIterable._wrapped_lazily_",
+          "return map(lambda v: v if isinstance(v, HashedValue) else HashedValue(v), iterable)",
+          "return list(map(lambda v: v if isinstance(v, HashedValue) else HashedValue(v), iterable))", rule="MEMO-ON-PULL"),
         V("pulled-element-not-stored", "hashed_data", "HashedIterable.__iter__", "            self.values[v.id_] = v\n", "", rule="MEMO-ON-PULL"),
         V("mapping-collects-children", S, "DomainMapping._evaluate__", "        for child_v in child_val:", "        for child_v in [c for c in child_val]:",
           rule="LAZY-TAINT"),
@@ -1252,7 +1252,7 @@ def _batch7() -> Dict[str, List[V]]:
           "        yield from list(self.values.values())\n        if not self.pulled:\n            yield from self.iterable\n", rule="SOURCE-NOT-DELEGATED"),
     ]
     wrap = [
-        V("none-members-not-wrapped", HD, "HashedIterable.set_iterable", "for v in iterable)", "for v in iterable if v is not None)", rule="MEMO-ON-PULL"),
+        V("none-members-not-wrapped", HD, "HashedIterable._wrapped_lazily_", "HashedValue(v), iterable)", "HashedValue(v), filter(lambda v: v is not None, iterable))", rule="MEMO-ON-PULL"),
     ]
     one_entry = [
         V("open-key-follows-wildcard-and-concrete", CD, "IndexedCache.retrieve", _UNBOUND_OLD,
@@ -1514,7 +1514,7 @@ def _batch9() -> Dict[str, List[V]]:
         V("completion-only-over-variables-with-a-domain", S, "QueryObjectDescriptor._unbound_conclusion_variables_", "                            and (var._domain_ or not var._predicate_type_):", "                            and var._domain_:", rule="CONCLUSION-VARS-BOUND"),
         V("completion-ignores-flattened-expressions", S, "QueryObjectDescriptor._unbound_conclusion_variables_", "                    elif isinstance(var, Flatten):\n                        # one row per element\n                        unbound.append(var)\n", "", rule="CONCLUSION-VARS-BOUND"),
         V("every-selected-variable-marked-inferred", S, "QueryObjectDescriptor._inform_selected_variables_that_they_should_be_inferred_",
-          "                if supplied_domain and not any(selected_variable is var for var in concluded_on):\n                    # selected next to the inferred variable, it keeps ranging over its domain\n                    continue\n", "", rule="INFER-MARK"),
+          "                if self._keeps_ranging_over_its_domain_(selected_variable, concluded_on):\n                    continue\n", "", rule="INFER-MARK"),
         V("infer-marks-at-construction", S, "Infer.__post_init__", "        self._node_.wrap_subtree = False\n", "        for v in self._child_.selected_variables:\n            v._is_inferred_ = True\n        self._node_.wrap_subtree = False\n", rule="INFER-MARK"),
         V("infer-mark-not-taken-back", S, "Infer._evaluate__", "        finally:\n            for v in marked:\n                v._is_inferred_ = False\n", "        finally:\n            pass\n", rule="EVAL-STATE-RESET"),
     ]
@@ -1774,4 +1774,122 @@ def _batch11() -> Dict[str, List[V]]:
 
 
 for _pid, _vs in _batch11().items():
+    REGISTRY[_pid] = _merged(REGISTRY[_pid], (lambda vs: (lambda: vs))(_vs))
+
+
+# --------------------------------------------------------------------------------------------------------------------
+# batch 12: the mechanisms of round 8 and the repairs made after it (each next to a behaviour-preserving twin where one exists)
+def _batch12() -> Dict[str, List[V]]:
+    index = [
+        V("bound-key-miss-falls-back-to-every-entry", CD, "IndexedCache.retrieve", "            if not branches:\n                self.search_count += 1\n",
+          "            if not branches:\n                self.search_count += 1\n                branches = list(cache.items())\n", rule="RETRIEVE-ALL-BRANCHES"),
+        V("twin-branch-list-started-before-the-case-split", CD, "IndexedCache.retrieve",
+          "        if key in assignment:\n            # presence is membership: what is stored under a key may be any output, None included.\n            branches = []\n",
+          "        branches = []\n        if key in assignment:\n            # presence is membership: what is stored under a key may be any output, None included.\n", kind="twin"),
+        V("entry-handed-out-with-the-accumulator", CD, "IndexedCache.retrieve", "                yield copy(local_result), cache_val\n", "                yield local_result, cache_val\n",
+          rule="RESULT-NO-ALIAS"),
+        V("twin-entry-handed-out-as-a-new-dict", CD, "IndexedCache.retrieve", "                yield copy(local_result), cache_val\n", "                yield dict(local_result), cache_val\n",
+          kind="twin"),
+    ]
+    stack = [
+        V("evaluation-stack-as-a-shared-default", S, "symbolic_mode", "                  _evaluation_stack: Optional[List[SymbolicExpression]] = None):",
+          "                  _evaluation_stack: List[SymbolicExpression] = []):", rule="NO-SHARED-DEFAULT",
+          also=[("SymbolicExpression._symbolic_expression_stack_ = [] if _evaluation_stack is None else _evaluation_stack", "SymbolicExpression._symbolic_expression_stack_ = _evaluation_stack")]),
+        V("twin-fresh-stack-by-a-call", S, "symbolic_mode", "SymbolicExpression._symbolic_expression_stack_ = [] if _evaluation_stack is None else _evaluation_stack",
+          "SymbolicExpression._symbolic_expression_stack_ = list() if _evaluation_stack is None else _evaluation_stack", kind="twin"),
+        V("infer-returns-the-unstarted-generator-from-its-bracket", S, "Infer._evaluate__", "            yield from super()._evaluate__(sources, yield_when_false=yield_when_false)\n",
+          "            return super()._evaluate__(sources, yield_when_false=yield_when_false)\n", rule="STREAM-UNDER-CLEANUP"),
+    ]
+    members = [
+        V("type-filter-judges-an-attribute-of-the-member", PR, "extract_selected_variable_and_expression", "lambda v: isinstance(v, symbolic_cls), domain.domain",
+          "lambda v: isinstance(getattr(v, 'value', v), symbolic_cls), domain.domain", rule="DECL-FILTER"),
+        V("twin-type-filter-with-another-parameter-name", PR, "extract_selected_variable_and_expression", "lambda v: isinstance(v, symbolic_cls), domain.domain",
+          "lambda member: isinstance(member, symbolic_cls), domain.domain", kind="twin"),
+        V("dict-is-a-single-value", "utils", "is_iterable", "(str, type, bytes, bytearray)", "(str, type, bytes, bytearray, dict)", rule="COLLECTION-TABLE"),
+    ]
+    link = [
+        V("graph-link-only-when-the-predicate-is-the-first-condition", PR, "update_query_child_expression_if_in_query_context",
+          "        else:\n            node._child_._child_ = var\n", "        else:\n            node._child_._child_ = var\n            node._child_._update_child_()\n",
+          rule="SLOT-STORE-LINKED", also=[("        # the registry anew only when the reset reaches it.\n        node._child_._update_child_()\n", "        # the registry anew only when the reset reaches it.\n")]),
+        V("children-of-a-node-by-primary-parent-only", "rxnode", "RWXNode.children", "        return self._graph.successors(self.id)\n",
+          "        return [c for c in self._graph.successors(self.id) if c._primary_parent_id == self.id]\n", rule="GRAPH-TRAVERSAL-ALL"),
+        V("twin-children-as-a-list", "rxnode", "RWXNode.children", "        return self._graph.successors(self.id)\n", "        return list(self._graph.successors(self.id))\n", kind="twin"),
+        V("reset-drops-the-tracking-of-one-parent-only", S, "SymbolicExpression._reset_only_my_cache_", "        self._seen_parent_values_by_parent_ = {}\n",
+          "        if self._parent_ is not None:\n            self._seen_parent_values_by_parent_.pop(self._parent_._id_, None)\n        else:\n            self._seen_parent_values_by_parent_ = {}\n",
+          rule="EVAL-STATE-RESET"),
+    ]
+    quant = [
+        V("requantified-by-the-selected-variable-alone", "entity", "select_one_or_select_many_or_infer", "quantifier(entity_._child_)", "quantifier(entity(entity_._var_))",
+          rule="REQUANTIFY-DESCRIPTION"),
+        V("conditions-next-to-a-description-dropped", "entity", "select_one_or_select_many_or_infer",
+          "        if properties:\n            # they would be dropped without a word, and the query would answer for fewer conditions than were written.\n            raise ValueError(f'Conditions given next to a description are not part of it: write them inside '\n                             f'entity(...) / set_of(...), got {len(properties)} outside.')\n",
+          "", rule="CONDITIONS-NOT-DROPPED"),
+        V("the-keeps-its-solution-for-the-rest-of-the-evaluation", S, "The._evaluate_", "        if self._id_ in sources:\n            return sources\n",
+          "        if self._id_ in sources:\n            return sources\n        if getattr(self, '_solution_', None) is not None:\n            result = copy(self._solution_)\n            result.update(sources)\n            return result\n",
+          rule="ROW-NOT-MEMOISED", also=[("            result[self._id_] = result[self._var_._id_]\n", "            result[self._id_] = result[self._var_._id_]\n            self._solution_ = result\n")]),
+    ]
+    flags = [
+        V("description-copies-the-truth-only-when-false-rows-are-asked", S, "QueryObjectDescriptor._evaluate_", "            if self._child_:\n                self._is_false_ = self._child_._is_false_\n",
+          "            if self._child_ and yield_when_false:\n                self._is_false_ = self._child_._is_false_\n", rule="FLAG-PER-ROW"),
+        V("else-if-counts-a-left-row-at-the-end-of-the-iteration", S, "ElseIf._evaluate__", "                any_left = True\n                left_value.update(sources)\n",
+          "                left_value.update(sources)\n", rule="LOOP-RAN-FLAG",
+          also=[("                else:\n                    self._is_false_ = False\n                    yield left_value\n", "                else:\n                    self._is_false_ = False\n                    yield left_value\n                any_left = True\n")]),
+        V("replayed-rows-not-recorded", S, "BinaryOperator.yield_final_output_from_cache", "            replayed.add(row)\n", "", rule="SEEN-RECORDED"),
+        V("and-completes-the-false-row-too-late", S, "AND._evaluate__", "                left_value.update(sources)\n                if yield_when_false and self.left._is_false_:\n",
+          "                if yield_when_false and self.left._is_false_:\n", rule="BIND-THREAD",
+          also=[("                    yield left_value\n                    continue\n\n", "                    yield left_value\n                    continue\n\n                left_value.update(sources)\n")]),
+        V("and-completes-only-the-false-row", S, "AND._evaluate__", "                left_value.update(sources)\n                if yield_when_false and self.left._is_false_:\n",
+          "                if yield_when_false and self.left._is_false_:\n                    left_value.update(sources)\n", rule="BIND-THREAD"),
+    ]
+    selector = [
+        V("drawn-store-keyed-by-the-set-object", "conclusion_selector", "ConclusionSelector.update_conclusion", "frozenset(id(conclusion) for conclusion in conclusions), SeenSet())",
+          "id(conclusions), SeenSet())", rule="CONCLUDED-PER-CONCLUSION"),
+        V("refinement-draws-its-conclusions-for-the-first-row-only", "conclusion_selector", "ExceptIf._evaluate__",
+          "                right_yielded = True\n                self._conclusion_.update(self.right._conclusion_)\n",
+          "                if not right_yielded:\n                    self._conclusion_.update(self.right._conclusion_)\n                right_yielded = True\n", rule="SELECT-EVERY-ROW"),
+    ]
+    registry = [
+        V("stores-read-through-a-generator-expression", CD, "yield_class_values_from_cache", "    found = [list(cache[t].retrieve(assignment, from_index=from_index)) for t in cache_keys]\n",
+          "    found = (list(cache[t].retrieve(assignment, from_index=from_index)) for t in cache_keys)\n", rule="REG-SNAPSHOT"),
+        V("factory-instance-filed-under-the-called-class", PR, "instantiate_class_and_update_cache", "        symbolic_cls = type(instance)\n", "", rule="REG-OWN-CLASS"),
+        V("twin-factory-instance-class-read-from-dunder-class", PR, "instantiate_class_and_update_cache", "        symbolic_cls = type(instance)\n", "        symbolic_cls = instance.__class__\n", kind="twin"),
+        V("supplied-domain-decided-by-what-was-pulled", S, "QueryObjectDescriptor._keeps_ranging_over_its_domain_", "supplied_domain = selected_variable._domain_source_ and not",
+          "supplied_domain = selected_variable._domain_.values and not", rule="PULLED-SO-FAR-NOT-ASKED"),
+        V("infer-marks-every-selected-variable", S, "Infer._evaluate__", "\n                  and not self._child_._keeps_ranging_over_its_domain_(v, concluded_on)]", "]", rule="INFER-MARK"),
+        V("expression-domain-kept-across-evaluations", S, "Variable._reset_only_my_cache_", "            self._domain_source_.domain._reset_cache_()\n            self._domain_ = HashedIterable()\n            self._update_domain_(self._domain_source_.domain)\n",
+          "            pass\n", rule="MEMO-SOURCE-FAILURE"),
+        V("source-wrapped-in-a-generator-expression", HD, "HashedIterable._wrapped_lazily_", "        return map(lambda v: v if isinstance(v, HashedValue) else HashedValue(v), iterable)\n",
+          "        return (v if isinstance(v, HashedValue) else HashedValue(v) for v in iterable)\n", rule="MEMO-SOURCE-FAILURE"),
+    ]
+    values = [
+        V("negated-membership-asks-the-container-for-its-truth", S, "not_contains", "    return not operator.contains(a, b)\n", "    return not a or not operator.contains(a, b)\n", rule="OPERATION-ON-VALUES"),
+        V("predicate-as-a-value-drops-its-false-rows", S, "Variable._falsy_value_is_false_", "        return self._predicate_type_ is not None\n", "        return False\n", rule="VALUE-TRUTH"),
+        V("twin-predicate-value-flag-by-truthiness", S, "Variable._falsy_value_is_false_", "        return self._predicate_type_ is not None\n", "        return bool(self._predicate_type_)\n", kind="twin"),
+        V("predicate-without-arguments-is-never-called", S, "Variable._evaluate__", "        elif self._child_vars_ or self._predicate_type_:\n", "        elif self._child_vars_:\n", rule="VARIABLE-DISPATCH"),
+    ]
+    return {
+        "C01": flags[1:] + quant[1:2] + link[1:3],
+        "C02": quant[1:] + link[1:3] + flags[3:],
+        "C03": flags[3:] + values[:1] + index[:2],
+        "C04": flags[1:3] + link[1:] + registry[5:],
+        "C05": flags[1:3] + index[:2],
+        "C06": quant[:1] + quant[2:] + registry[:1] + flags[4:],
+        "C07": registry[3:4] + registry[6:],
+        "C08": stack[:2],
+        "C09": stack + values[3:] + registry[4:5],
+        "C10": flags[3:],
+        "C11": stack[2:] + registry[:1] + registry[3:5],
+        "C12": selector,
+        "C13": members + quant[:1] + values[3:],
+        "C14": link[:3] + registry[:3] + registry[5:6],
+        "C15": quant[:1] + quant[2:] + flags[:1],
+        "C16": members[2:] + selector[1:],
+        "C17": values[:1],
+        "C18": flags[1:2] + flags[3:] + index[:2],
+        "C19": values[:3],
+        "C20": index,
+    }
+
+
+for _pid, _vs in _batch12().items():
     REGISTRY[_pid] = _merged(REGISTRY[_pid], (lambda vs: (lambda: vs))(_vs))
